@@ -1,8 +1,9 @@
 (* C15 - Every input yields either a complete report or a clean error, never a crash.  Statements only.
    Absence of panics, aborts and hangs in the compiled program is explored by the correspondence check, not proved. *)
-From Coq Require Import QArith Qcanon ZArith List Bool Sorted.
+From Coq Require Import QArith Qcanon ZArith List Bool Sorted String.
 Require Import CGT.Model.Num CGT.Model.Ledger CGT.Model.Match CGT.Model.Validate
-               CGT.Proofs.ValidateFacts CGT.Proofs.MatchInv CGT.Proofs.Examples.
+               CGT.Proofs.ValidateFacts CGT.Proofs.MatchInv CGT.Proofs.Examples
+               CGT.Model.Dsl CGT.Model.Json CGT.Model.Cli CGT.Proofs.CliFacts.
 Import ListNotations.
 Open Scope Qc_scope.
 
@@ -37,3 +38,72 @@ Proof. split; [exact ex1_wf|exact ex1_sorted]. Qed.
 
 Print Assumptions C15_validator_spec.
 Print Assumptions C15_named_outcomes.
+
+(* The command layer (main.rs: parse, report, convert; Model/Cli.v).  For ANY parser, rate loader, configuration,
+   calculator, formatters and converter - functions that return a result or fail - any file system and any command line:
+   a command that fails has printed nothing on standard output and written no file (so an --output path is untouched);
+   the only file a report writes is its --output path or, without one, the default PDF path, and the default PDF path is
+   never written when it exists; a command that succeeds has run every stage to its end and its single output is the
+   formatter's complete result - there is no partial report. *)
+Section C15_cli.
+  Context {Txs Fx Cfg Rep : Type}.
+  Context (parse : text -> option Txs) (to_json : Txs -> option text) (schema : option text)
+          (load_fx : option path -> option Fx) (load_cfg : option Cfg)
+          (calc : Txs -> option N -> Fx -> Cfg -> option Rep)
+          (fmt_plain fmt_json fmt_pdf : Rep -> option text)
+          (convert : text -> option text -> option text).
+  Notation report := (report_cmd parse load_fx load_cfg calc fmt_plain fmt_json fmt_pdf).
+
+  Theorem C15_cli_failure_has_no_effect : forall fs files year fmt output fx sc ex aw,
+    (snd (report fs files year fmt output fx) = ExitErr -> fst (report fs files year fmt output fx) = []) /\
+    (snd (parse_cmd parse to_json schema fs files sc) = ExitErr -> fst (parse_cmd parse to_json schema fs files sc) = []) /\
+    (snd (convert_cmd convert fs ex aw output) = ExitErr -> fst (convert_cmd convert fs ex aw output) = []).
+  Proof.
+    intros. split; [apply report_failure_silent|split; [apply parse_failure_silent|apply convert_failure_silent]].
+  Qed.
+
+  Theorem C15_cli_writes_only_its_target : forall fs files year fmt output fx p b,
+    In (Write p b) (fst (report fs files year fmt output fx)) -> p = target files output /\ f_can_write fs p = true.
+  Proof. exact (report_writes_only_target parse load_fx load_cfg calc fmt_plain fmt_json fmt_pdf). Qed.
+
+  Theorem C15_default_pdf_never_replaces : forall fs files year fmt fx p b,
+    In (Write p b) (fst (report fs files year fmt None fx)) -> f_exists fs p = false.
+  Proof. exact (default_pdf_never_replaces parse load_fx load_cfg calc fmt_plain fmt_json fmt_pdf). Qed.
+
+  Theorem C15_existing_default_pdf_refused : forall fs files year fx,
+    f_exists fs (default_pdf files) = true -> report fs files year Pdf None fx = fail.
+  Proof. exact (report_refuses_existing_default parse load_fx load_cfg calc fmt_plain fmt_json fmt_pdf). Qed.
+
+  Theorem C15_cli_success_is_complete : forall fs files year fmt output fx,
+    snd (report fs files year fmt output fx) = Exit0 ->
+    exists cs rates txs cfg rep c,
+      read_all fs files = Some cs /\ load_fx fx = Some rates /\ parse (join_nl cs) = Some txs /\ load_cfg = Some cfg /\
+      calc txs year rates cfg = Some rep /\ rendered fmt_plain fmt_json fmt_pdf fmt rep = Some c /\
+      fst (report fs files year fmt output fx) =
+         match fmt, output with
+         | Pdf, _ => [Write (target files output) c; Out (PDF_WRITTEN ++ target files output ++ NL)]
+         | Plain, None => [Out (c ++ [])] | Json, None => [Out (c ++ NL)]
+         | _, Some p => [Write p c]
+         end.
+  Proof. exact (report_success_complete parse load_fx load_cfg calc fmt_plain fmt_json fmt_pdf). Qed.
+End C15_cli.
+Print Assumptions C15_cli_failure_has_no_effect.
+Print Assumptions C15_cli_writes_only_its_target.
+Print Assumptions C15_default_pdf_never_replaces.
+Print Assumptions C15_existing_default_pdf_refused.
+Print Assumptions C15_cli_success_is_complete.
+
+(* non-vacuity: with computations that succeed, a report to standard output succeeds and prints the whole text; with a
+   calculator that fails, the same command line fails and prints nothing; an existing a.pdf is left alone *)
+Definition c15_fs (existing : list path) : fsys :=
+  {| f_read := fun p => if existsb (Json.teqb p) [T "a.cgt"%string] then Some (T "x"%string) else None;
+     f_exists := fun p => existsb (Json.teqb p) existing; f_can_write := fun _ => true |}.
+Example C15_cli_applies :
+  let ok := report_cmd (fun t => Some t) (fun _ => Some tt) (Some tt) (fun t _ _ _ => Some t) (fun r => Some (r ++ T "!"%string)) (fun r => Some r) (fun r => Some r) in
+  let bad := report_cmd (fun t => Some t) (fun _ => Some tt) (Some tt) (fun (t : text) _ _ _ => @None text) (fun r => Some r) (fun r => Some r) (fun r => Some r) in
+  ok (c15_fs []) [T "a.cgt"%string] None Plain None None = ([Out (T "x!"%string)], Exit0) /\
+  bad (c15_fs []) [T "a.cgt"%string] None Plain None None = ([], ExitErr) /\
+  ok (c15_fs []) [T "nope.cgt"%string] None Plain None None = ([], ExitErr) /\
+  ok (c15_fs []) [T "a.cgt"%string] None Pdf None None = ([Write (T "a.pdf"%string) (T "x"%string); Out (T "PDF written to a.pdf"%string ++ NL)], Exit0) /\
+  ok (c15_fs [T "a.pdf"%string]) [T "a.cgt"%string] None Pdf None None = ([], ExitErr).
+Proof. repeat split; vm_compute; reflexivity. Qed.
